@@ -23,6 +23,13 @@ CHECKS = {
                      "every boundary request and compared with a reference disk model; complete enumeration per buffer size.",
                 note="trusted: parallels.txt / prl-xml.txt transcription in mc/builders/hdd.py (cross-checked against "
                      "the repository's expanding.hdd fixture), CPython, AlignedStream"),
+    "C04": dict(level=MC, ref="DESIGN.md section 4 C04",
+                text="Every dynamic VHD of the bounded space (block size x size form x max_table_entries x table/header "
+                     "order x 512/511-byte footer x every allocation and injective placement of a 3-5 block window) and a "
+                     "family of fixed VHDs are read with every boundary request through seek/read and disk.read_sectors "
+                     "and compared with a reference disk model; complete enumeration per buffer size.",
+                note="trusted: VHD specification transcription in mc/builders/vhd.py (validated against both repository "
+                     "fixtures incl. checksums), CPython, AlignedStream; block sizes >= 4 KiB only"),
 }
 
 PENDING_REASON = "check not built yet in this session (planned in DESIGN.md section 4); not claimed until it runs"
